@@ -48,7 +48,7 @@ func C02(run *vf.Run) {
 
 // C10: body buffering is byte-faithful and limits are enforced exactly.
 func C10(run *vf.Run) {
-	run.Rule = "Tx.tla body buffers: bytes are modelled by their position in the supplied stream. TLC explores all mixes of slice writes, reader writes with known length and reader writes of unknown length, chunk sizes below / at / above the limit, both limit actions, memory limit below the hard limit (spill to disk), request and response side, interleaved with the phase calls, checking Faithful (stored = prefix of supplied, never beyond the limit), RejectExact (refused iff the cumulative size reaches the limit), PartialExact, BodyVarIsStoredPrefix in every state; every edge is replayed on a real transaction: bytes taken, bytes read back from the body readers, REQUEST_BODY as seen by the body phase, INBOUND/OUTBOUND_DATA_ERROR and the 413/500 refusal are compared; sizes are also multiplied (x1, x4096, x40000) so the same behaviours cross io.CopyN/bytes.Buffer chunk sizes. Non-trivial = a path that stored body bytes"
+	run.Rule = "Tx.tla body buffers: bytes are modelled by their position in the supplied stream. TLC explores all mixes of slice writes, reader writes with known length and reader writes of unknown length, chunk sizes below / at / above the limit, both limit actions, limits lowered or raised at run time by ctl:requestBodyLimit / responseBodyLimit, memory limit below the hard limit (spill to disk), request and response side, interleaved with the phase calls, checking Faithful (stored = prefix of supplied, never beyond the limit), RejectExact (refused iff the cumulative size reaches the limit), PartialExact, BodyVarIsStoredPrefix in every state; every edge is replayed on a real transaction: bytes taken, bytes read back from the body readers, REQUEST_BODY as seen by the body phase, INBOUND/OUTBOUND_DATA_ERROR and the 413/500 refusal are compared; sizes are also multiplied (x1, x4096, x40000) so the same behaviours cross io.CopyN/bytes.Buffer chunk sizes. Non-trivial = a path that stored body bytes"
 	run.Exhaustive = true
 	run.Assume("TLC 1.8.0 explores the bounded Tx_MC instance completely")
 	run.Assume("after a refused write (Reject) the content of the buffer is left open (Choice_AfterRefusal)")
@@ -60,6 +60,15 @@ func C10(run *vf.Run) {
 		txm.ReplayEdges(run, txm.MCOpts{Name: "body-edges", Engines: `{"On"}`, ReqLimits: "{2, 3}", Ks: "{1, 2, 3}", Modes: `{"slice", "known", "unknown"}`,
 			DisruptKinds: `{}`, Phases2: "{}", CallNames: side, Workers: 14, Timeout: vf.Pick(run, 15*time.Minute, 120*time.Minute),
 			Scales: vf.Pick(run, []txm.Scale{1, 4096}, []txm.Scale{1, 4096, 40000}), Relevant: bodyComponent})
+	}
+	// limits lowered / raised at run time by ctl (request side by a phase-1 rule, response side by a phase-3 rule)
+	if run.NumViolations() == 0 {
+		txm.ReplayEdges(run, txm.MCOpts{Name: "body-edges-ctl-request-limit", Engines: `{"On"}`, ReqLimits: "{2}", Ks: "{1, 3}", Modes: `{"slice", "known", "unknown"}`,
+			DisruptKinds: `{"ctlReqLimit1"}`, Phases2: "{1}", ReqShapes: `{"on/Reject", "on/ProcessPartial"}`, RespShapes: `{"off/Reject"}`,
+			CallNames: `{"PRH", "PRB", "WREQ"}`, Workers: 14, Timeout: vf.Pick(run, 15*time.Minute, 120*time.Minute), Scales: []txm.Scale{1}, Relevant: bodyComponent})
+		txm.ReplayEdges(run, txm.MCOpts{Name: "body-edges-ctl-response-limit", Engines: `{"On"}`, ReqLimits: "{2}", Ks: "{1, 3}", Modes: `{"slice", "known", "unknown"}`,
+			DisruptKinds: `{"ctlRespLimit1"}`, Phases2: "{3}", ReqShapes: `{"off/Reject"}`, RespShapes: `{"on/Reject", "on/ProcessPartial"}`,
+			CallNames: `{"PRSH", "PRSB", "WRESP"}`, Workers: 14, Timeout: vf.Pick(run, 15*time.Minute, 120*time.Minute), Scales: []txm.Scale{1}, Relevant: bodyComponent})
 	}
 	if run.Thorough() {
 		txm.ReplayEdges(run, txm.MCOpts{Name: "body-edges-mixed", Engines: `{"On", "DetectionOnly"}`, ReqLimits: "{2}", Ks: "{1, 3}", Modes: `{"slice", "unknown"}`,
